@@ -21,7 +21,9 @@ RULE = ("case = generated compatible family (1-2 axes, 2-4 full masters, optiona
         "master, cubic / quadratic / mixed curves with per-master exaggerated curvature, components "
         "with per-master offsets and - option - per-master 2x2) x {compileInterpolatableTTFs, "
         "compileInterpolatableTTFsFromDS, compileInterpolatableOTFsFromDS} x flattenComponents / "
-        "skipExportGlyphs / custom filters (decomposeTransformedComponents, propagateAnchors); "
+        "skipExportGlyphs / custom filters (decomposeTransformedComponents, propagateAnchors) / "
+        "optimizeCFF 1-2 on the OTF path (with points collinear in one master only); 4 %: a "
+        "component mirrored in one master only; "
         "distinct = sha1 of the case; non-trivial = >= 2 master fonts were produced and compared "
         "glyph by glyph and the family has a cubic curve or a component")
 ASSUMPTIONS = [
